@@ -34,7 +34,7 @@ def fnLocsS : Stat → List Loc
   | .do_ b _ => fnLocsB b
   | .while_ c b _ => fnLocsE c ++ fnLocsB b
   | .repeat_ b c _ => fnLocsB b ++ fnLocsE c
-  | .if_ cs bs _ => cs.flatMap fnLocsE ++ bs.flatMap fnLocsB
+  | .if_ cs bs _ _ => cs.flatMap fnLocsE ++ bs.flatMap fnLocsB
   | .fornum _ _ i l s b _ => fnLocsE i ++ fnLocsE l ++ fnLocsE s ++ fnLocsB b
   | .forin _ es b _ => es.flatMap fnLocsE ++ fnLocsB b
   | .assign vs es _ => vs.flatMap fnLocsE ++ es.flatMap fnLocsE
